@@ -43,6 +43,8 @@ const (
 
 var enc *jsonenc.Encoder
 
+var ntAllow int // non-trivial Allow evaluations
+
 func mkKey(seed string) string {
 	k, err := base.NewMPrivatekeyFromSeed(seed + strings.Repeat("-", 40))
 	if err != nil {
@@ -132,6 +134,30 @@ type query struct {
 	r    uint8
 }
 
+type gridSpec struct{ us, ss, rs string } // Coq lists of the query grid (users by alias)
+
+// alias renders a user for the Coq side: public-key strings are replaced by short injective aliases
+// ("_default" and "" are kept): the code only compares user strings for equality.
+var aliases = map[string]string{defUser: defUser, "": ""}
+
+func alias(u string) string {
+	if a, ok := aliases[u]; ok {
+		return a
+	}
+	a := fmt.Sprintf("k%d", len(aliases))
+	aliases[u] = a
+	return a
+}
+
+func qq(s string) string { // Coq string literal, string_scope is open in the cases files
+	for _, c := range []byte(s) {
+		if c < 32 || c > 126 || c == '"' {
+			panic("unsupported char")
+		}
+	}
+	return "\"" + s + "\""
+}
+
 func coqTable(t table) string {
 	var us []string
 	for _, u := range vh.SortedKeys(t) {
@@ -140,16 +166,24 @@ func coqTable(t table) string {
 		}
 		var cs []string
 		for _, s := range vh.SortedKeys(t[u]) {
-			cs = append(cs, vh.Tuple(vh.Str(s), vh.Z(int64(t[u][s]))))
+			cs = append(cs, fmt.Sprintf("(%s,%d)", qq(s), t[u][s]))
 		}
-		us = append(us, vh.Tuple(vh.Str(u), vh.List(cs)))
+		us = append(us, fmt.Sprintf("(%s,[%s])", qq(alias(u)), strings.Join(cs, ";")))
 	}
-	return vh.List(us)
+	return "[" + strings.Join(us, ";") + "]"
+}
+
+func code(p uint8, allow bool) int {
+	c := 2 * int(p)
+	if allow {
+		c++
+	}
+	return c
 }
 
 // runTable answers all queries on the real ACL (both installation paths when the table is valid),
 // evaluates the oracle, and returns the Coq case.
-func runTable(res *vh.Result, t table, superuser string, mapsize uint64, qs []query, nameOf map[string]string) (string, any) {
+func runTable(res *vh.Result, t table, superuser string, mapsize uint64, qs []query, nameOf map[string]string, grid *gridSpec) (string, any) {
 	valid := tableValid(t)
 	vias := []string{"set"}
 	if valid {
@@ -173,7 +207,10 @@ func runTable(res *vh.Result, t table, superuser string, mapsize uint64, qs []qu
 			rp := replay{Kind: "allow", Via: via, Super: superuser, Table: t, User: q.u, Scope: q.s, Required: q.r}
 			d, defined := decidedBy(t, q.u, q.s)
 			nontrivial := q.u != superuser && q.r >= 2 && defined
-			res.Count(fmt.Sprintf("%v|%s|%s|%d", t, q.u, q.s, q.r), nontrivial)
+			res.Evaluations++
+			if nontrivial {
+				ntAllow++
+			}
 			// ---- property oracle (required ranges over the allow permissions 2..79; valid tables)
 			if valid && q.r >= 2 && q.r <= super {
 				switch {
@@ -197,13 +234,22 @@ func runTable(res *vh.Result, t table, superuser string, mapsize uint64, qs []qu
 			}
 			if vi == 0 {
 				first = append(first, a)
-				coqqs = append(coqqs, vh.Tuple(vh.Str(q.u), vh.Str(q.s), vh.Z(int64(q.r)), vh.Tuple(vh.Z(int64(a.p)), vh.Bool(a.ok))))
+				if grid != nil {
+					coqqs = append(coqqs, fmt.Sprint(code(a.p, a.ok)))
+				} else {
+					coqqs = append(coqqs, fmt.Sprintf("(%s,%s,%d,%d)", qq(alias(q.u)), qq(q.s), q.r, code(a.p, a.ok)))
+				}
 			} else if qi < len(first) && first[qi] != a {
 				res.Fail("yaml-vs-setuser", fmt.Sprintf("Allow(%s,%s,%d): via yaml (%d,%v), via setUser (%d,%v)", nameOf[q.u], q.s, q.r, first[qi].p, first[qi].ok, a.p, a.ok), rp)
 			}
 		}
 	}
-	term := fmt.Sprintf("CAllow %s %s %s", vh.Str(superuser), coqTable(t), vh.List(coqqs))
+	var term string
+	if grid != nil {
+		term = fmt.Sprintf("(CGrid %s %s %s %s %s [%s])%%Z", qq(alias(superuser)), coqTable(t), grid.us, grid.ss, grid.rs, strings.Join(coqqs, ";"))
+	} else {
+		term = fmt.Sprintf("(CAllow %s %s [%s])%%Z", qq(alias(superuser)), coqTable(t), strings.Join(coqqs, ";"))
+	}
 	return term, map[string]any{"kind": "allow", "super": superuser, "table": t, "queries": len(qs)}
 }
 
@@ -249,7 +295,7 @@ func main() {
 		}
 	}
 	r := vh.NewRand(o.Seed)
-	cases := &vh.Cases{Import: "From MV Require Import C35.Model.", Type: "case", CheckFn: "check", Shard: 120}
+	cases := &vh.Cases{Import: "From MV Require Import C35.Model.", Type: "case", CheckFn: "check", Shard: 300}
 
 	su, u, w := mkKey("c35-super"), mkKey("c35-user-u"), mkKey("c35-user-w")
 	nameOf := map[string]string{su: "super", u: "u", w: "w(absent)", defUser: "_default"}
@@ -266,6 +312,20 @@ func main() {
 				allq = append(allq, query{qu, qs, qr})
 			}
 		}
+	}
+	grid := &gridSpec{}
+	{
+		var a, b, c []string
+		for _, x := range users {
+			a = append(a, qq(alias(x)))
+		}
+		for _, x := range scopes {
+			b = append(b, qq(x))
+		}
+		for _, x := range reqs {
+			c = append(c, fmt.Sprint(x))
+		}
+		grid.us, grid.ss, grid.rs = "["+strings.Join(a, ";")+"]", "["+strings.Join(b, ";")+"]", "["+strings.Join(c, ";")+"]"
 	}
 	modelEvery := o.Pick(4, 1) // every table is checked by the oracle; every n-th also goes to the model
 	ti := 0
@@ -290,7 +350,12 @@ func main() {
 						if extra&2 != 0 {
 							t[defUser]["s2"] = 3
 						}
-						term, desc := runTable(res, t, su, uint64(1+ti%9), allq, nameOf)
+						for k := range t {
+							if len(t[k]) < 1 {
+								delete(t, k)
+							}
+						}
+						term, desc := runTable(res, t, su, uint64(1+ti%9), allq, nameOf, grid)
 						if ti%modelEvery == 0 {
 							cases.Add(term, desc)
 						}
@@ -317,16 +382,16 @@ func main() {
 		{table{defUser: {defScope: 79}}, su},                           // allow everybody
 		{table{u: {defScope: 1}, defUser: {"s1": 79, defScope: 79}}, su}, // user default prohibit beats default user's scope
 		{table{u: {"s1": 2}, defUser: {"s1": 1}}, ""},                  // no superuser configured
-		{table{u: {"s1": 2}, defUser: {"s1": 1}}, defUser},             // superuser named _default
+		{table{u: {"s1": 2}, w: {defScope: 1}}, defUser},               // superuser named _default
 	}
 	for _, c := range corpus {
-		term, desc := runTable(res, c.t, c.su, 9, allq, nameOf)
+		term, desc := runTable(res, c.t, c.su, 9, allq, nameOf, nil)
 		cases.Add(term, desc)
 		res.Dist("corpus_tables")
 	}
 
 	// ---------------------------------------------------------------- random larger tables
-	nrand := o.Pick(300, 6000)
+	nrand := o.Pick(200, 3000)
 	pool := []string{u, w, mkKey("c35-a"), mkKey("c35-b"), mkKey("c35-c"), defUser}
 	spool := []string{"s1", "s2", "design", "acl", "handover", defScope}
 	for i := 0; i < nrand; i++ {
@@ -366,7 +431,7 @@ func main() {
 			qu := append([]string{su, mkKey("c35-unknown")}, pool...)[r.Intn(len(pool)+2)]
 			qs = append(qs, query{qu, append([]string{"zz"}, spool...)[r.Intn(len(spool)+1)], []uint8{0, 1, 2, 2, 3, 3, 4, 40, 78, 79, 80, 255}[r.Intn(12)]})
 		}
-		term, desc := runTable(res, t, su, uint64(r.Range(1, 64)), qs, nameOf)
+		term, desc := runTable(res, t, su, uint64(r.Range(1, 64)), qs, nameOf, nil)
 		cases.Add(term, desc)
 		if invalid {
 			res.Dist("random_tables_with_invalid_perms")
@@ -394,7 +459,7 @@ func main() {
 		if string(b) != pp.String() {
 			res.Fail("perm-roundtrip", fmt.Sprintf("MarshalText(%d)=%q String()=%q", p, b, pp.String()), replay{Kind: "perm", Perm: uint8(p)})
 		}
-		cases.Add(fmt.Sprintf("CPrint %s %s", vh.Z(int64(p)), vh.Str(string(b))), map[string]any{"kind": "print", "perm": p, "text": string(b)})
+		cases.Add(fmt.Sprintf("(CPrint %d %s)%%Z", p, qq(string(b))), map[string]any{"kind": "print", "perm": p, "text": string(b)})
 		var q launch.ACLPerm
 		err = q.UnmarshalText(b)
 		if valid && (err != nil || q != pp) {
@@ -405,7 +470,7 @@ func main() {
 
 	// ---------------------------------------------------------------- texts through UnmarshalText
 	texts := []string{"", "x", "s", "o", "oo", "xo", "ox", "oox", "xoo", "so", "os", "ss", "xx", "O", "oO", " o", "o ", "o o", "0", "oo0", "<empty perm>", "o+", "^o+$", "oo-", "x ", " s", "sx", "ooooooooox"}
-	for k := 3; k <= 300; k++ {
+	for k := 3; k <= o.Pick(300, 1200); k++ {
 		texts = append(texts, strings.Repeat("o", k))
 	}
 	texts = append(texts, strings.Repeat("o", 256+1), strings.Repeat("o", 512), strings.Repeat("o", 256+78), strings.Repeat("o", 77)+"x", strings.Repeat("o", 78)+"s")
@@ -426,9 +491,10 @@ func main() {
 		seen[t] = true
 		var q launch.ACLPerm
 		err := q.UnmarshalText([]byte(t))
+		allO := len(t) > 0 && strings.Count(t, "o") == len(t)
 		obs := "None"
 		if err == nil {
-			obs = vh.Some(vh.Z(int64(q)))
+			obs = fmt.Sprintf("(Some %d)", q)
 			// oracle: text -> perm -> text unchanged (one alias: 78 o's denote 79 = "s"; uint8 wrap for 256+ chars)
 			if q.IsValid(nil) == nil && q.String() != t && t != strings.Repeat("o", 78) && len(t) < 256 {
 				res.Fail("parse-accepts-noncanonical", fmt.Sprintf("text %q parses to %d which prints %q", t, q, q.String()), replay{Kind: "parse", Text: t})
@@ -437,7 +503,11 @@ func main() {
 		res.Count("text:"+t, err == nil)
 		res.Dist("texts_parsed")
 		if model {
-			cases.Add(fmt.Sprintf("CParse %s %s", vh.Str(t), obs), map[string]any{"kind": "parse", "text": t, "impl": obs})
+			if allO {
+				cases.Add(fmt.Sprintf("(CParseO %d %s)%%Z", len(t), obs), map[string]any{"kind": "parse", "text_o_repeated": len(t), "impl": obs})
+			} else {
+				cases.Add(fmt.Sprintf("(CParse %s %s)%%Z", qq(t), obs), map[string]any{"kind": "parse", "text": t, "impl": obs})
+			}
 		}
 		// the same text through the YAML import (convertACLPerm = UnmarshalText + IsValid), observed with Allow
 		if model && !strings.ContainsAny(t, "\"\\") {
@@ -447,12 +517,16 @@ func main() {
 			cobs := "None"
 			if ierr == nil {
 				p, _ := acl.Allow(w, "s1", 2)
-				cobs = vh.Some(vh.Z(int64(p)))
+				cobs = fmt.Sprintf("(Some %d)", p)
 				if p < 1 || p > super {
 					res.Fail("import-stores-invalid-perm", fmt.Sprintf("YAML perm %q stored as %d", t, p), replay{Kind: "parse", Text: t})
 				}
 			}
-			cases.Add(fmt.Sprintf("CConvert %s %s", vh.Str(t), cobs), map[string]any{"kind": "convert", "text": t, "impl": cobs})
+			if allO {
+				cases.Add(fmt.Sprintf("(CConvertO %d %s)%%Z", len(t), cobs), map[string]any{"kind": "convert", "text_o_repeated": len(t), "impl": cobs})
+			} else {
+				cases.Add(fmt.Sprintf("(CConvert %s %s)%%Z", qq(t), cobs), map[string]any{"kind": "convert", "text": t, "impl": cobs})
+			}
 		}
 	}
 	for _, t := range texts {
@@ -461,6 +535,7 @@ func main() {
 	for _, t := range rawOnly {
 		parse(t, false)
 	}
+	res.DistinctNontrivial += ntAllow
 	res.ModelCases = cases.Len()
 	if err := cases.Write(o.Out); err != nil {
 		panic(err)
